@@ -32,7 +32,7 @@ def C(**k):
     return pipe_run.norm_cfg(k)
 
 
-def par(tasks, n=4):
+def par(tasks, n=3):
     """Runs the callables concurrently (independent TLC runs) and returns their results in order."""
     from concurrent.futures import ThreadPoolExecutor
     with ThreadPoolExecutor(n) as ex:
@@ -103,7 +103,7 @@ def stage_cfgs(pid, tier, rng):
         inp = list(range(1, n + 1))
         for kind in ("Map", "FMap"):
             for mode in ("lift", "try"):
-                for cap in [0, 1, 2]:
+                for cap in ([0, 1] if th else [0, 1, 2]):
                     for k in range(0, n + 1):
                         for fail in itertools.combinations(inp, k):
                             c = C(kind=kind, cap=cap, mode=mode, inputs=[inp], fail=list(fail))
